@@ -59,8 +59,9 @@ SPEC = {
     "exhaustive": lambda tier: tier == "quick",
     "jobs": [
         Job("gate", "rpc", "^TestVerifC19ApiKeyGate$", shards=(4, 8), timeout=(600, 3600)),
+        Job("keyfile", "config", "^TestVerifC19KeyFile$", shards=(1, 1), timeout=(300, 600)),
     ],
-    "floors": _floors,
+    "floors": dict(_floors, **{"key_file_state:empty": 15, "key_file_state:blank": 15, "key_file_state:missing": 15, "key_file_state:key": 15, "processes_with_literal_like_key": 1}),
     "assumptions": [
         "'carries exactly that key' = the element's JSON member \"key\" is a JSON string equal to the configured key "
         "(an escaped spelling of the same string counts as the key; other members such as \"extra\":{\"key\":...} do not)",
